@@ -293,7 +293,6 @@ func JSON(v interface{}) string {
 // NewRand returns a deterministic generator for a derived seed.
 func NewRand(seed int64) *rand.Rand { return rand.New(rand.NewSource(seed)) }
 
-
 // globMatch: "*" in the pattern matches any run of characters.
 func globMatch(pattern, s string) bool {
 	parts := strings.Split(pattern, "*")
